@@ -21,6 +21,7 @@
   one step (CPython bytecode interleavings on the shared `JobStatus`) are outside the model.
 -/
 import PercevalModel.Lemmas.C18
+import PercevalModel.Lemmas.C18Ext
 
 namespace PM.C18
 open PM.SM
@@ -507,5 +508,381 @@ example : answersTo 1 (run (pstep true) [] [.create cfg0, .create cfg0,
       .on 0 .cancel, .on 0 (.execSync call0), .on 0 .tStart, .on 0 (.tReturn ret0),
       .on 1 (.tProgress 2), .on 1 (.tReturn ret0), .on 1 .statusQuery]).2 =
     [.accepted, .started [], .progressed (some 1) 2 false, .finished none, .status .success .none 8] := by decide
+
+/-! # Extension (model: `Model/C18Ext.lean`, helpers: `Lemmas/C18Ext.lean`)
+
+`Job.__call__`, `Job.name`, the string forms of the status, the one-shot conversion for both result shapes
+(`results` / iterated `results_list`), the `Sampler` presets, the task side of the cancel relay. -/
+
+/-! ## string forms of the status, `Job.__call__`, `Job.name` -/
+
+/-- The five status strings are pairwise different: the string a caller reads (`job.status()`,
+`str(job.status)`) determines the status. -/
+theorem status_name_injective (a b : St) (h : a.name = b.name) : a = b := by
+  cases a <;> cases b <;> first | rfl | (revert h; decide)
+
+/-- The truthful final state in the words the caller reads: after a return `"CANCELED"` iff a cancel was
+requested before it, else `"SUCCESS"`; after a raise `"ERROR"`; both string forms agree; whatever happens
+afterwards. -/
+theorem status_string_truthful (fixed : Bool) (cfg : Cfg) (w1 w2 : List Ev)
+    (h : (after fixed cfg w1).phase = .active) :
+    (∀ r, statusCall (after fixed cfg (w1 ++ .tReturn r :: w2)) =
+            (if (after fixed cfg w1).cancelReq then "CANCELED" else "SUCCESS") ∧
+          statusStr (after fixed cfg (w1 ++ .tReturn r :: w2)) = statusCall (after fixed cfg (w1 ++ .tReturn r :: w2))) ∧
+    (∀ c m, statusCall (after fixed cfg (w1 ++ .tRaise c m :: w2)) = "ERROR" ∧
+          statusStr (after fixed cfg (w1 ++ .tRaise c m :: w2)) = "ERROR") := by
+  obtain ⟨h1, h2⟩ := final_truthful fixed cfg w1 w2 h
+  refine ⟨fun r => ⟨?_, rfl⟩, fun c m => ?_⟩
+  · unfold statusCall
+    rw [(h1 r).2.1]
+    split <;> rfl
+  · unfold statusCall statusStr
+    rw [(h2 c m).2.1]
+    exact ⟨rfl, rfl⟩
+
+/-- While the task is in flight the string a status query yields is `"RUNNING"` (repaired code). -/
+theorem status_string_running (cfg : Cfg) (w : List Ev)
+    (hp : (after true cfg w).phase = .ready ∨ (after true cfg w).phase = .active)
+    (hen : callerEnabled (after true cfg w) = true) :
+    statusCall (step true cfg (after true cfg w) .statusQuery).1 = "RUNNING" := by
+  have hinv := inv_after true cfg w
+  rw [running_until_return cfg w hp hen]
+  generalize after true cfg w = s at hp hen hinv
+  have hst : s.status = .running := by
+    rcases hinv.cases with h | h | h | h | h | h | h <;> simp_all [callerEnabled]
+  simp [statusCall, hst, St.name]
+
+/-- `job(*args, **kwargs)` IS `job.execute_sync(*args, **kwargs)`: same new state, same answer, in every
+state. -/
+theorem call_is_execute_sync (fixed : Bool) (cfg : Cfg) (x : XState) (c : Call) :
+    xstep fixed cfg x (.call c) = xstep fixed cfg x (.job (.execSync c)) := rfl
+
+/-- Reading and setting the job's name — anywhere in any history, also from inside the progress callback
+and while the task runs — is invisible to the job machine: the job after an extended history is the job
+after the history with the name operations erased (and `__call__` read as `execute_sync`), and it gave
+the same answers.  Hence every theorem of this file holds for histories with name operations and
+`__call__` in them. -/
+theorem name_ops_transparent (fixed : Bool) (cfg : Cfg) (w : List XEv) :
+    (exec (xstep fixed cfg) (xinit cfg) w).job = after fixed cfg (eraseX w) ∧
+    (run (xstep fixed cfg) (xinit cfg) w).2.filterMap baseOut = outs fixed cfg (eraseX w) :=
+  xrun_proj fixed cfg w (xinit cfg)
+
+/-- The setter: a non-empty string becomes the name, the empty string becomes `"unnamed"`, anything that
+is not a string raises TypeError and leaves the name; the getter returns the current name. -/
+theorem name_setter_spec (fixed : Bool) (cfg : Cfg) (x : XState) (hen : callerEnabled x.job = true) :
+    (∀ s : String, s.length > 0 →
+      xstep fixed cfg x (.setName (some s)) = ({ x with name := s }, .nameSet)) ∧
+    xstep fixed cfg x (.setName (some "")) = ({ x with name := "unnamed" }, .nameSet) ∧
+    xstep fixed cfg x (.setName none) = (x, .typeError) ∧
+    xstep fixed cfg x .getName = (x, .name x.name) := by
+  refine ⟨fun s hs => ?_, ?_, ?_, ?_⟩
+  · simp [xstep, hen, setName, hs]
+  · simp [xstep, hen, setName]
+  · simp [xstep, hen, setName]
+  · simp [xstep, hen]
+
+/-- No event of the job machine touches the name: a fresh job is called `"Job"` until the setter is used. -/
+theorem name_unaffected_by_job_events (fixed : Bool) (cfg : Cfg) (w : List Ev) (x : XState) :
+    (exec (xstep fixed cfg) x (w.map .job)).name = x.name := by
+  induction w generalizing x with
+  | nil => rfl
+  | cons e w ih => rw [List.map_cons, exec_cons, ih]; rfl
+
+example : (run (xstep true cfg0) (xinit cfg0)
+    [.getName, .setName (some ""), .getName, .setName none, .call call0, .job .tStart, .prog 4 .none,
+     .setName (some "run 1"), .job (.tReturn ret0), .getName]).2 =
+    [.name "Job", .nameSet, .name "unnamed", .typeError, .job .accepted, .job (.started [(1, some 5)]),
+     .reply (.progressed (some 1) 4 false) .none (some false), .nameSet,
+     .job (.finished (some (.val ret0))), .name "run 1"] := by decide
+
+/-! ## one-shot conversion, both result shapes -/
+
+/-- conversion depth of a payload: how many times the mapping function was applied -/
+def Val.depth : Val → Nat
+  | .nat _ => 0
+  | .mapped v _ => v.depth + 1
+
+/-- the conversion depths of the payloads of a result, in order -/
+def Ret.depths : Ret → List Nat
+  | .dict v => [v.depth]
+  | .dlist l => l.map (·.2.depth)
+  | _ => []
+
+/-- the iteration dictionaries of a result -/
+def Ret.iterations : Ret → List Dict
+  | .dlist l => l.map (·.1)
+  | _ => []
+
+/-- EVERY value a caller ever receives after a normal return — from whatever event hands it out, at whatever
+later point of whatever history — is the task's value `r` itself (no mapping function) or `r` converted ONCE
+with the job's mapping arguments.  (`results_value` for every value-giving event, not only `get_results`.) -/
+theorem value_received (fixed : Bool) (cfg : Cfg) (w1 w2 : List Ev) (r v : Ret) (e : Ev)
+    (h : (after fixed cfg w1).phase = .active)
+    (hv : resultOf (step fixed cfg (after fixed cfg (w1 ++ .tReturn r :: w2)) e).2 = some v) :
+    (cfg.hasMap = false ∧ v = r) ∨
+      (cfg.hasMap = true ∧ convertRet (after fixed cfg (w1 ++ .tReturn r :: w2)).mapping r = some v) := by
+  obtain ⟨hd, _, _, hh⟩ := (final_truthful fixed cfg w1 w2 h).1 r
+  have hinv := inv_after fixed cfg (w1 ++ .tReturn r :: w2)
+  generalize after fixed cfg (w1 ++ .tReturn r :: w2) = t at hv hd hh hinv
+  obtain ⟨r', mp, cr, p, _, h2, h3⟩ := done_step fixed cfg t e hinv hd
+  obtain ⟨rfl, rfl⟩ := h3 v hv
+  rcases hh with ⟨a, b⟩ | ⟨a, b, c⟩
+  · rcases h2 with ⟨h2, h4⟩ | ⟨h2, _, h4⟩
+    · exact .inl ⟨by rw [← a, ← h4], by rw [h2, b]⟩
+    · exact .inr ⟨by rw [← a, h2], by rw [← b]; exact h4⟩
+  · rcases h2 with ⟨h2, _⟩ | ⟨h2, _⟩
+    · exact .inr ⟨a, by rw [h2]; exact c⟩
+    · rw [b] at h2; cases h2
+
+/-- The same for the value `execute_sync` itself returns (the step that ends the task). -/
+theorem value_returned_by_execute_sync (fixed : Bool) (cfg : Cfg) (w1 : List Ev) (r v : Ret)
+    (h : (after fixed cfg w1).phase = .active)
+    (hv : resultOf (step fixed cfg (after fixed cfg w1) (.tReturn r)).2 = some v) :
+    (cfg.hasMap = false ∧ v = r) ∨
+      (cfg.hasMap = true ∧ convertRet (after fixed cfg (w1 ++ [.tReturn r])).mapping r = some v) := by
+  obtain ⟨_, _, _, hh⟩ := (final_truthful fixed cfg w1 [] h).1 r
+  have hs := (result_settles fixed cfg _ _ (inv_after fixed cfg w1) hv).1
+  have hst : after fixed cfg (w1 ++ [.tReturn r]) = (step fixed cfg (after fixed cfg w1) (.tReturn r)).1 := by
+    unfold after; rw [exec_append, exec_cons, exec_nil]
+  rw [hst] at hh ⊢
+  generalize (step fixed cfg (after fixed cfg w1) (.tReturn r)).1 = t at hs hh
+  obtain ⟨_, hm, hr⟩ := hs
+  rcases hh with ⟨a, b⟩ | ⟨a, _, c⟩
+  · exact .inl ⟨by rw [← a, hm], by rw [← hr, b]⟩
+  · exact .inr ⟨a, by rw [← hr]; exact c⟩
+
+/-- The conversion, shape by shape: `{'results': x}` becomes `{'results': f(x, **mapping)}`; an iterated
+result `{'results_list': [{'iteration': it_i, 'results': x_i}]}` keeps its length, order and iteration
+dictionaries, and entry `i` becomes `f(x_i, **mapping overridden by it_i)`; a value of neither shape cannot
+be converted. -/
+theorem convert_shapes (mapping : Dict) :
+    (∀ x, convertRet mapping (.dict x) = some (.dict (.mapped x mapping))) ∧
+    (∀ l, convertRet mapping (.dlist l) =
+      some (.dlist (l.map fun e => (e.1, .mapped e.2 (overrideWith mapping e.1))))) ∧
+    (∀ n, convertRet mapping (.plain n) = none) ∧ convertRet mapping .none = none :=
+  ⟨fun _ => rfl, fun _ => rfl, fun _ => rfl, rfl⟩
+
+/-- The override of one iteration: exactly the keys of the job's mapping arguments, in the same order (an
+iteration key the mapping does not have is not passed on); a key the iteration has takes the iteration's
+value (even `None`), any other keeps the job's. -/
+theorem override_spec (mapping it : Dict) :
+    keys (overrideWith mapping it) = keys mapping ∧
+    ∀ k v, (k, v) ∈ overrideWith mapping it ↔ ∃ v0, (k, v0) ∈ mapping ∧ v = (it.lookup k).getD v0 := by
+  refine ⟨by simp [keys, overrideWith, Function.comp_def], fun k v => ?_⟩
+  simp only [overrideWith, List.mem_map, Prod.mk.injEq, Prod.exists]
+  constructor
+  · rintro ⟨a, b, hm, rfl, rfl⟩; exact ⟨b, hm, rfl⟩
+  · rintro ⟨v0, hm, rfl⟩; exact ⟨k, v0, hm, rfl, rfl⟩
+
+/-- ONE-SHOT, both shapes: whatever value `v` a caller receives after the task returned `r` (any event, any
+later point, any number of earlier `get_results()` calls) has the iteration dictionaries of `r` and, payload by
+payload, the conversion depth of `r` plus exactly one with a mapping function, plus zero without — never two
+(a second conversion of an iterated result would show as depth + 2 in every entry). -/
+theorem one_shot_conversion (fixed : Bool) (cfg : Cfg) (w1 w2 : List Ev) (r v : Ret) (e : Ev)
+    (h : (after fixed cfg w1).phase = .active)
+    (hv : resultOf (step fixed cfg (after fixed cfg (w1 ++ .tReturn r :: w2)) e).2 = some v) :
+    v.iterations = r.iterations ∧
+    v.depths = r.depths.map (· + (if cfg.hasMap then 1 else 0)) := by
+  rcases value_received fixed cfg w1 w2 r v e h hv with ⟨hm, rfl⟩ | ⟨hm, hc⟩
+  · simp [hm]
+  · rw [hm]
+    cases r with
+    | none => cases hc
+    | plain n => cases hc
+    | dict x =>
+      obtain rfl := Option.some.inj hc
+      simp [Ret.iterations, Ret.depths, Val.depth]
+    | dlist l =>
+      obtain rfl := Option.some.inj hc
+      simp [Ret.iterations, Ret.depths, Val.depth, Function.comp_def]
+
+/-- the conversion is not applied to a converted result again: `_get_results` after `_get_results` -/
+theorem convert_twice (s s2 : State) (h : convert s = some s2) : convert s2 = some s2 := by
+  rcases convert_cases h with ⟨hm, rfl⟩ | ⟨_, r2, _, rfl⟩
+  · simp [convert, hm]
+  · simp [convert]
+
+/-- iterated result with a mapping function, `get_results()` three times, once from `execute_sync` -/
+example : (outs true cfg1 [.execSync call0, .tStart,
+      .tReturn (.dlist [([(2, some 9)], .nat 1), ([], .nat 2)]), .getResults, .getResults]).drop 2 =
+    [.finished (some (.val (.dlist [([(2, some 9)], .mapped (.nat 1) [(2, some 9)]), ([], .mapped (.nat 2) [(2, some 3)])]))),
+     .results (.dlist [([(2, some 9)], .mapped (.nat 1) [(2, some 9)]), ([], .mapped (.nat 2) [(2, some 3)])]),
+     .results (.dlist [([(2, some 9)], .mapped (.nat 1) [(2, some 9)]), ([], .mapped (.nat 2) [(2, some 3)])])] := by
+  decide
+example : (after true cfg1 [.execAsync call0, .tStart]).phase = .active ∧
+    resultOf (step true cfg1 (after true cfg1 ([.execAsync call0, .tStart] ++
+      .tReturn (.dlist [([], .nat 2)]) :: [.getResults])) .getResults).2 =
+      some (.dlist [([], .mapped (.nat 2) [(2, some 3)])]) := by decide
+
+/-! ## the jobs `Sampler` creates -/
+
+/-- Argument routing for the four presets `Sampler._create_job` passes, for EVERY value: what
+`_handle_params` leaves in the command dictionary (the task's keyword arguments), in the mapping dictionary
+(the conversion's) and whether it raises — for no argument, one positional, `max_samples=` by keyword, both,
+two positionals.  In words: on a sampling backend `max_samples` reaches the task whether passed positionally
+or by keyword and passing it both ways is refused; on a probs backend it reaches the conversion; a probs job
+on a sampling backend runs with the preset count unless a positional argument overrides it. -/
+theorem sampler_preset_routing (P : Preset) (cb : Bool) (h : How) :
+    handleParams (P.cfg cb).paramNames (P.cfg cb).command0 (P.cfg cb).mapping0 h.call = P.route h := by
+  rcases P with _ | sh | n | cv <;> rcases h with _ | a | v | ⟨a, v⟩ | ⟨a, b⟩ <;>
+    first
+    | rfl
+    | (cases a <;> rfl)
+    | (cases sh <;> rfl)
+    | (cases sh <;> cases a <;> rfl)
+    | simp [handleParams, popExtra, How.call, posArgs, Preset.route, Preset.cfg, dhas, dset, fill]
+
+/-- History level: a job created by `Sampler`, executed (synchronously or in a thread) with `max_samples`
+passed in any of the five ways: when the routing table says "accepted" the task function is entered with
+exactly the command dictionary of the table as keyword arguments; when it says "raises", the call raises that
+exception and the task cannot be started. -/
+theorem sampler_job_task_receives (fixed : Bool) (P : Preset) (cb async : Bool) (h : How) :
+    let e := if async then Ev.execAsync h.call else Ev.execSync h.call
+    ((P.route h).2.2 = none →
+      outs fixed (P.cfg cb) [e, .tStart] = [.accepted, .started (P.route h).1]) ∧
+    (∀ x, (P.route h).2.2 = some x →
+      outs fixed (P.cfg cb) [e, .tStart] = [.exc x, .disabled]) := by
+  have hr := sampler_preset_routing P cb h
+  rcases hroute : P.route h with ⟨cmd, map, ex⟩
+  rw [hroute] at hr
+  have := fresh_call_outs fixed (P.cfg cb) h.call async cmd map ex hr
+  refine ⟨fun hn => ?_, fun x hx => ?_⟩
+  · simp only at hn; subst hn; exact this
+  · simp only at hx; subst hx; exact this
+
+/-- `Sampler(probs backend).sample_count(n)` with iterations: the conversion of iteration `i` receives
+`max_samples` = the iteration's own `max_samples` if it has one, else `n`, and `max_shots` = the iteration's own
+if it has one, else the Sampler's — exactly these two keyword arguments, for every `n`, every Sampler
+`max_shots` and every list of iterations. -/
+theorem sampler_iterated_conversion (n : Nat) (sh : PyVal) (l : List (Dict × Val)) :
+    (handleParams [] [] [(maxSamples, none), (maxShots, sh)] (How.pos (some n)).call).2.1 =
+      [(maxSamples, some n), (maxShots, sh)] ∧
+    convertRet [(maxSamples, some n), (maxShots, sh)] (.dlist l) =
+      some (.dlist (l.map fun e => (e.1, .mapped e.2
+        [(maxSamples, (e.1.lookup maxSamples).getD (some n)), (maxShots, (e.1.lookup maxShots).getD sh)]))) := by
+  refine ⟨?_, rfl⟩
+  have := sampler_preset_routing (.sampleViaProbs sh) false (.pos (some n))
+  simp only [Preset.cfg] at this
+  rw [this]; rfl
+
+example : outs true ((Preset.samplesNative true).cfg false) [.execSync (How.kw (some 50)).call, .tStart] =
+    [.accepted, .started [(maxSamples, some 50)]] := by decide
+example : outs true ((Preset.probsViaSamples 10000).cfg false) [.execAsync (How.kw (some 50)).call, .tStart] =
+    [.exc .unused, .disabled] := by decide
+
+/-! ## the task side of the cancel relay -/
+
+/-- `check_cancel.cancel_requested` applied to what `LocalJob._progress_cb` returns: true whenever a cancel
+was requested (the relay `{'cancel_requested': True}` is what the test looks for — the two files agree);
+otherwise the verdict on what the user's callback returned, and false when there is no user callback. -/
+theorem check_cancel_spec (s : State) (u : Reply) :
+    cancelRequested (jobReply s u) =
+      if s.cancelReq then some true
+      else if s.userCb.isSome then cancelRequested u else some false := by
+  unfold jobReply
+  cases s.cancelReq <;> cases s.userCb <;> simp [cancelRequested]
+
+/-- In the machine: the answer to a progress report carries the relay exactly when the job's cancel flag
+is set, and then `cancel_requested` says yes. -/
+theorem relay_reaches_the_task (fixed : Bool) (cfg : Cfg) (x : XState) (p : Nat) (u : Reply)
+    (ha : x.job.phase = .active) (hc : x.job.cancelReq = true) :
+    (xstep fixed cfg x (.prog p u)).2 = .reply (.progressed none p true) (.dict (some true)) (some true) := by
+  simp [xstep, ha, step, taskProgress, hc, jobReply, cancelRequested]
+
+/-- Every history of the closed loop (cooperative task + caller, any schedule) is a history of the job machine:
+all theorems above apply to it. -/
+theorem coop_histories_are_histories (fixed : Bool) (cfg : Cfg) (pr : Prog) (W : List CEv) :
+    ∃ w, (exec (cstep fixed cfg pr) (cinit cfg pr) W).job = after fixed cfg w :=
+  creach fixed cfg pr W _ ⟨[], rfl⟩
+
+/-- CANCEL TAKES EFFECT.  A cooperative task (one that tests `cancel_requested` on what every progress call
+returns, policy raise or stop) is in flight and a cancel has been requested.  Whatever the caller does meanwhile
+and whatever the user's callback returns, after at most TWO further steps of the task it has ended, and the job
+is CANCELED or ERROR — never SUCCESS — for good. -/
+theorem coop_cancel_takes_effect (fixed : Bool) (cfg : Cfg) (pr : Prog) (W1 W2 : List CEv)
+    (hp : pr.policy ≠ .ignore)
+    (ha : (exec (cstep fixed cfg pr) (cinit cfg pr) W1).job.phase = .active)
+    (hc : (exec (cstep fixed cfg pr) (cinit cfg pr) W1).job.cancelReq = true)
+    (h2 : 2 ≤ ticks W2) :
+    (exec (cstep fixed cfg pr) (cinit cfg pr) (W1 ++ W2)).job.phase = .done ∧
+    ((exec (cstep fixed cfg pr) (cinit cfg pr) (W1 ++ W2)).job.status = .canceled ∨
+     (exec (cstep fixed cfg pr) (cinit cfg pr) (W1 ++ W2)).job.status = .error) := by
+  rw [exec_append]
+  have hi : MapInv cfg (exec (cstep fixed cfg pr) (cinit cfg pr) W1).job :=
+    inv_exec (cstep fixed cfg pr) (fun c => MapInv cfg c.job) (fun c e h => cstep_mapInv fixed cfg pr c e h)
+      _ ⟨inv_init cfg, fun _ => rfl⟩ W1
+  apply coop_end fixed cfg pr hp W2 _ hi ha hc
+  have : need (exec (cstep fixed cfg pr) (cinit cfg pr) W1) ≤ 2 := by unfold need; split <;> omega
+  omega
+
+/-- What the end looks like, policy by policy, in every state in which the task has seen the request:
+`raise RuntimeError("Cancel requested")` → ERROR with exactly that type and message; `break` → the job is CANCELED
+when `cancel()` had been called and holds the partial result — and SUCCESS with the partial result when only the
+user's callback asked for the stop (quirk of the code as it is: the relay protocol is open to the callback). -/
+theorem coop_end_by_policy (fixed : Bool) (cfg : Cfg) (pr : Prog) (c : CState) (u : Reply)
+    (hi : MapInv cfg c.job) (ha : c.job.phase = .active) (hs : c.seen = .stop) :
+    (pr.policy = .raise →
+      (cstep fixed cfg pr c (.tick u)).1.job.phase = .done ∧
+      (cstep fixed cfg pr c (.tick u)).1.job.status = .error ∧
+      (cstep fixed cfg pr c (.tick u)).1.job.msg = .task clsRuntime txtCancelRequested) ∧
+    (pr.policy = .stop →
+      (cstep fixed cfg pr c (.tick u)).1.job.phase = .done ∧
+      (cstep fixed cfg pr c (.tick u)).1.job.status = (if c.job.cancelReq then .canceled else .success) ∧
+      Holds cfg pr.partialResult (cstep fixed cfg pr c (.tick u)).1.job) := by
+  have hmap := hi.2 (by rw [ha]; simp)
+  have key := final_truthful_state fixed cfg c.job hi.1 hmap ha []
+  simp only [exec_nil] at key
+  constructor
+  · intro hp
+    simp only [cstep, nextTaskEv, ha, hs, hp]
+    exact key.2 _ _
+  · intro hp
+    simp only [cstep, nextTaskEv, ha, hs, hp]
+    obtain ⟨a, b, _, d⟩ := key.1 pr.partialResult
+    exact ⟨a, b, d⟩
+
+/-- cancel from the caller thread after the first report; the task sees it at the second report and raises /
+stops; the third and fourth report are never made -/
+example : (run (cstep true cfg0 { reports := [1, 2, 3, 4], result := ret0, partialResult := .dict (.nat 0), policy := .raise })
+      (cinit cfg0 { reports := [1, 2, 3, 4], result := ret0, partialResult := .dict (.nat 0), policy := .raise })
+      [.caller (.execAsync call0), .tick .none, .tick .none, .caller .cancel, .tick .none, .tick .none, .tick .none,
+       .caller .statusQuery]).2 =
+    [.accepted, .started [(1, some 5)], .progressed (some 1) 1 false, .done, .progressed none 2 true,
+     .finished none, .disabled, .status .error (.task clsRuntime txtCancelRequested) 2] := by decide
+example : (run (cstep true cfg0 { reports := [1, 2, 3, 4], result := ret0, partialResult := .dict (.nat 0), policy := .stop })
+      (cinit cfg0 { reports := [1, 2, 3, 4], result := ret0, partialResult := .dict (.nat 0), policy := .stop })
+      [.caller (.execAsync call0), .tick .none, .tick .none, .caller .cancel, .tick .none, .tick .none,
+       .caller .getResults]).2 =
+    [.accepted, .started [(1, some 5)], .progressed (some 1) 1 false, .done, .progressed none 2 true,
+     .finished none, .results (.dict (.nat 0))] := by decide
+/-- the quirk: the user's callback returns `{'cancel_requested': True}`, nobody calls `cancel()` -/
+example : (run (cstep true cfg0 { reports := [1, 2], result := ret0, partialResult := .dict (.nat 0), policy := .stop })
+      (cinit cfg0 { reports := [1, 2], result := ret0, partialResult := .dict (.nat 0), policy := .stop })
+      [.caller (.execAsync call0), .tick .none, .tick (.dict (some true)), .tick .none, .caller .statusQuery]).2 =
+    [.accepted, .started [(1, some 5)], .progressed (some 1) 1 false, .finished none, .status .success .none 8] := by
+  decide
+
+/-- NO SPURIOUS STOP.  Along any closed-loop history in which nobody calls `cancel()` and the user's callback never
+returns a cancel request (nor an object `cancel_requested` cannot read) — whatever else the caller does, in any
+interleaving — the cooperative task never sees a stop request, and when it has ended it has made ALL its progress
+reports and returned its full result: the job is SUCCESS and holds that result (once-converted at most). -/
+theorem coop_no_spurious_stop (fixed : Bool) (cfg : Cfg) (pr : Prog) (W : List CEv)
+    (hq : ∀ e ∈ W, quietEv e = true) :
+    (exec (cstep fixed cfg pr) (cinit cfg pr) W).seen = .go ∧
+    (exec (cstep fixed cfg pr) (cinit cfg pr) W).job.cancelReq = false ∧
+    ((exec (cstep fixed cfg pr) (cinit cfg pr) W).job.phase = .done →
+      (exec (cstep fixed cfg pr) (cinit cfg pr) W).job.status = .success ∧
+      Holds cfg pr.result (exec (cstep fixed cfg pr) (cinit cfg pr) W).job ∧
+      (exec (cstep fixed cfg pr) (cinit cfg pr) W).todo = []) := by
+  have h0 : Quiet cfg pr (cinit cfg pr) :=
+    ⟨⟨inv_init cfg, fun _ => rfl⟩, rfl, rfl, fun h => by simp [cinit, init] at h⟩
+  exact (quiet_exec fixed cfg pr W _ hq h0).2
+
+example : (∀ e ∈ [CEv.caller (.execSync call0), .tick .none, .tick (.dict none), .caller .statusQuery, .tick (.dict (some false)),
+      .tick .none], quietEv e = true) ∧
+    (exec (cstep true cfg0 { reports := [1, 2], result := ret0, partialResult := .none, policy := .raise })
+      (cinit cfg0 { reports := [1, 2], result := ret0, partialResult := .none, policy := .raise })
+      [.caller (.execSync call0), .tick .none, .tick (.dict none), .caller .statusQuery, .tick (.dict (some false)),
+       .tick .none]).job.phase = .done := by decide
 
 end PM.C18
